@@ -182,6 +182,10 @@ class Binner(dict):
             binsize = float(binsize)
             nbin = np.int64((self.dmax - self.dmin) / binsize) + 1
         elif nbin is not None:
+            # a plain int: with a small numpy integer type (e.g. np.uint8)
+            # "sortind.size + nbin + 1" wraps around and the reverse index
+            # array is allocated too small for what chist writes into it
+            nbin = int(nbin)
             binsize = float(self.dmax - self.dmin) / nbin
         else:
             raise RuntimeError("Expected binsize or nbin")
